@@ -20,7 +20,7 @@ import SlogModel.Gen.Facts
   * facts: every blocking operation on the stop path selects on the stop signal or carries a deadline.
   Tie: the end-to-end harness measures every graceful stop of the real agent (upstream refusing,
   resetting, silent, late; idle, mid-chunk, pending ACKs) against the sum of the scaled timeouts;
-  C02's harness reports a client that does not finish within 8 s of the stop request.
+  C02's harness reports a client that does not finish within 25 s of the stop request.
   PARTIAL: the time bound itself is measured, not proved.
 -/
 
